@@ -473,6 +473,12 @@ def run(repo, rep):
     rep.floor('C07.f', n, 4)
     from .c07_shape import run_shape
     rep.floor('C07.h', run_shape(repo, rep), 20)
+    # C07.i: what a bundled printer prints below itself is printed under the caller's settings (imported from the context model)
+    from . import ctxmodel
+    ni = ctxmodel.report(repo, rep, 'C07.i', lambda k: ':keeps:' in k or k.startswith('ctor:stores:'),
+                         'the contents of a standard-library container would be printed under different settings than asked for')
+    ni += ctxmodel.construction_sites(repo, rep, 'C07.i', 'contents of standard-library containers are printed under the derived context')
+    rep.floor('C07.i', ni, 10)
     rep.analysed['attribute_reads_checked'] = n_reads
 
 
